@@ -62,6 +62,7 @@ type frame struct {
 	phiEnv  map[*ssa.BasicBlock]map[string]Val
 	bindings []ssa.Value
 	specMode bool
+	s2a      map[ssa.Value]Val
 	matz     []matRec
 	letCache map[string]sval
 }
@@ -75,7 +76,7 @@ type loopInfo struct {
 
 func (c *Ctx) newFrame(fn *ssa.Function, depth int, stack []*ssa.Function) *frame {
 	return &frame{c: c, fn: fn, depth: depth, vals: map[ssa.Value]Val{}, locs: map[ssa.Value]*Loc{},
-		backN: map[ssa.Value]int64{}, closure: map[ssa.Value]*ssa.MakeClosure{},
+		backN: map[ssa.Value]int64{}, closure: map[ssa.Value]*ssa.MakeClosure{}, s2a: map[ssa.Value]Val{},
 		reach: map[*ssa.BasicBlock]string{}, in: map[*ssa.BasicBlock]State{}, out: map[*ssa.BasicBlock]State{},
 		edge: map[[2]int]string{}, stack: append(append([]*ssa.Function{}, stack...), fn),
 		phiEnv: map[*ssa.BasicBlock]map[string]Val{}}
@@ -747,8 +748,9 @@ func (f *frame) step(in ssa.Instruction, st State, reach string) (State, bool) {
 		if sv[1] == "0" {
 			f.setVal(x, Val{sv[0]})
 		} else {
-			c.note("slice-to-array-ptr-offset")
-			f.setVal(x, c.freshVal("s2a", x.Type(), reach, st.alloc.term()))
+			// pointer into the middle of a backing array: only loads are supported (value copy)
+			f.s2a[x] = sv
+			f.setVal(x, Val{"0"})
 		}
 		return st, false
 	case *ssa.MakeSlice:
